@@ -187,10 +187,18 @@ class Unit:
             elif kw == 'include':
                 self._process(os.path.join(os.path.dirname(path), rest))
                 i += 1
+            elif kw == 'require':
+                # `//@require FILE | /REGEX/ | what`: a textual premise of the rewrite rules of this unit (e.g. the declared
+                # type of a thread-local that rule R-tls turns into a parameter); if the source no longer matches, the unit's
+                # reading of the code may be wrong: undecided, never an alarm
+                file_, rx_, what_ = [x.strip() for x in rest.split('|', 2)]
+                if not re.search(rx_.strip('/'), self.src(file_).text):
+                    self.soft_undecided.append(dict(msg='%s: %s (premise of this unit not found in the source)' % (file_, what_), props=None))
+                i += 1
             elif kw == 'mustfail':
                 self._pending_mustfail = True
                 i += 1
-            elif kw in ('fn', 'item', 'implhdr', 'arm', 'guard', 'slice', 'macroarm', 'sig', 'callslice', 'quote', 'flaguse', 'skipguard', 'sortedfacts'):
+            elif kw in ('fn', 'item', 'implhdr', 'arm', 'guard', 'slice', 'macroarm', 'sig', 'callslice', 'quote', 'flaguse', 'skipguard', 'sortedfacts', 'frozen'):
                 # collect block up to //@end (implhdr/guard are one-liners without block)
                 block = []
                 j = i + 1
@@ -495,8 +503,15 @@ class Unit:
             for ln, l in spec:
                 self.lines.append(Line(l, ('spec', base, ln, name, None, props), fnkey))
             self.lines.append(Line('{ unimplemented!() }', ('tmpl', base, tline), fnkey))
-            self.soft_undecided.append(dict(msg='%s: body of %s is not accepted by the verifier front end on this tree (obligations of %s undecided)' % (where, name, ','.join(props)), props=list(props)))
-            self.quarantined_props = getattr(self, 'quarantined_props', set()) | set(props)
+            # every property one of the function's clauses is labelled with is undecided as well
+            qprops = list(props)
+            for ln, l in spec:
+                _lb, _lp = parse_label(l)
+                for p_ in (_lp or []):
+                    if p_ not in qprops:
+                        qprops.append(p_)
+            self.soft_undecided.append(dict(msg='%s: body of %s is not accepted by the verifier front end on this tree (obligations of %s undecided)' % (where, name, ','.join(qprops)), props=qprops))
+            self.quarantined_props = getattr(self, 'quarantined_props', set()) | set(qprops)
             return
         # ---- emit signature, spec header, then the body
         if auto_for:
@@ -592,6 +607,39 @@ class Unit:
         self.emit('#[verifier::external_body] pub proof fn %s() ensures %s { }' % (lemma, ', '.join(facts) if facts else 'true'), ('tmpl', base, tline))
         self.rewrites.append(('data fact %s: %s' % (lemma, '; '.join(notes)), file, 1))
 
+    def _d_frozen(self, rest, block, base, tline):
+        """`//@frozen FILE | CONTAINER | FN | /from/ | /to/` followed by the expected text: a stretch of the function that no
+        unit verifies statement by statement (it is covered by another unit's slice, or is plain plumbing) must still be,
+        comments and layout aside, the text written here; otherwise a statement nobody looked at may have appeared:
+        undecided, never an alarm.  `/^/` as from = start of the body."""
+        parts = [p.strip() for p in rest.split('|')]
+        file, container, fn, frm, to = parts[:5]
+        s, f = self._locate_fn(file, container, fn)
+        lo, hi = f['open'] + 1, f['close']
+        body = s.text[lo:hi]
+        a = 0 if frm.strip('/') == '^' else None
+        if a is None:
+            m = re.search(frm.strip('/'), body)
+            a = body.rfind('\n', 0, m.start()) + 1 if m else None
+        m2 = re.search(to.strip('/'), body[a:]) if a is not None else None
+        if a is None or m2 is None:
+            self.soft_undecided.append(dict(msg='%s: frozen stretch %s..%s of %s not found' % (file, frm, to, fn), props=None))
+            return
+        b = body.rfind('\n', 0, a + m2.start()) + 1
+        def plain(x):
+            x = re.sub(r'//[^\n]*', '', x)
+            x = re.sub(r'/\*.*?\*/', '', x, flags=re.S)
+            return re.sub(r'\s+', '', x)
+        want = plain('\n'.join(l for _, l in block))
+        got = plain(body[a:b])
+        if want != got:
+            k = 0
+            while k < min(len(want), len(got)) and want[k] == got[k]:
+                k += 1
+            self.soft_undecided.append(dict(msg='%s:%d: the stretch %s..%s of %s, which no unit reads statement by statement, is no longer the text it was when the units were written (differs near `%s`)' % (
+                file, s.line_of(lo + a), frm, to, fn, got[max(0, k - 10):k + 30]), props=None))
+        self.rewrites.append(('frozen stretch %s..%s of %s compared with its committed text' % (frm, to, fn), file, 1))
+
     def _d_sig(self, rest, block, base, tline):
         """the real signature of a function (no body): used to give a callee an assumed
         contract that is keyed by the callee's own parameter NAMES"""
@@ -663,6 +711,18 @@ class Unit:
             text = text + ';'
         self.rewrites.append(('R-arm lift match arm %s' % norm(arm['pat'])[:60], where, 1))
         if as_name:
+            # R-continue: in an arm of the LAST match of the loop body a `continue` (outside any inner loop) ends the
+            # iteration exactly like reaching the end of the arm does; in the lifted function that is `return <post>`
+            inner = [(lp['kw'], lp['close']) for lp in s.loops_in(a, b)]
+            conts = [m_ for m_ in re.finditer(r"\bcontinue\b(?!\s*')", s.masked[a:b]) if not any(x <= a + m_.start() < y for x, y in inner)]
+            if conts:
+                if self._arm_match_ends_loop_body(s, arm):
+                    ret_txt = 'return %s' % post[0].rstrip(';') if post else 'return'
+                    for m_ in reversed(conts):
+                        text = text[:m_.start()] + ret_txt + text[m_.end():]
+                    self.rewrites.append(('R-continue %d `continue` of the arm become `%s`' % (len(conts), ret_txt), where, len(conts)))
+                else:
+                    self.soft_undecided.append(dict(msg='%s: arm %s uses `continue` although later statements of the loop body follow its match' % (where, norm(arm['pat'])[:60]), props=list(self.props)))
             # virtual source: `wrap { pre; <arm body verbatim>; post }` so that //@fn can splice
             # contracts, loop invariants and proof blocks into it like into any function
             text = self.apply_subs(text, self._simple_subs(nb), where)
@@ -672,6 +732,26 @@ class Unit:
         else:
             text = self.apply_subs(self.apply_rules(text, where), self._simple_subs(nb), where)
             self.emit_repo(s, a, b, text=text, fn='arm')
+
+    @staticmethod
+    def _arm_match_ends_loop_body(s, arm):
+        """does the match this arm belongs to stand last in its enclosing block (only closing braces follow)?"""
+        m = s.masked
+        i = arm['end']
+        d = 0
+        # to the closing brace of the match
+        while i < len(m):
+            if m[i] in '([{':
+                d += 1
+            elif m[i] in ')]}':
+                if d == 0:
+                    break
+                d -= 1
+            i += 1
+        j = i + 1
+        while j < len(m) and m[j] in ' \t\r\n;':
+            j += 1
+        return j < len(m) and m[j] == '}'
 
     def _d_guard(self, rest, block, base, tline):
         s, f, arm = self._find_arm(rest)
